@@ -58,15 +58,20 @@ class _ServiceSpec:
     def invariant(self):
         rq, rs = self._request_type, self._response_type
         return {
-            # ServiceType.__init__ raises ValueError unless these hold ("consistent")
+            # ServiceType.__init__ raises ValueError unless these hold ("consistent"): PROVED by its contract in
+            # specs/c05.py (`_ServiceInit`: ValueError iff not SERVICE_PARTS_CONSISTENT; inv# obligations for the five
+            # clauses below)
             "parts-not-services": AND(NOT(ISINST(rq, "ServiceType")), NOT(ISINST(rs, "ServiceType"))),
             "parts-version": AND(EQ(rq._version, self._version), EQ(rs._version, self._version)),
             "parts-no-port-id": AND(IS_NONE(rq._fixed_port_id), IS_NONE(rs._fixed_port_id)),
             "parts-have-parent": AND(rq._has_parent_service, rs._has_parent_service),
             "parts-deprecated": AND(EQ(rq._deprecated, self._deprecated), EQ(rs._deprecated, self._deprecated)),
-            # ASSUMED (not enforced by ServiceType.__init__ itself): the only construction site in the repository,
-            # DataTypeBuilder.finalize, names the parts <service>.Request / <service>.Response; hence two services
-            # with the same full name have request (response) parts with the same full name.
+            # ASSUMED (NOT established by ServiceType.__init__, which only checks that the full names of both parts start
+            # with the request's full namespace and takes that namespace as its own name - `inv_exempt` in `_ServiceInit`):
+            # the only construction site in the repository, DataTypeBuilder.finalize, names the parts
+            # <service>.Request / <service>.Response; hence two services with the same full name have request
+            # (response) parts with the same full name.  (finalize's contract cannot state it either: the constructor
+            # contracts used there do not say which name is stored.)
             "parts-name": AND(EQ(rq._name, self._name + ".Request"), EQ(rs._name, self._name + ".Response")),
         }
 
